@@ -191,8 +191,17 @@ def check(tier, seed):
             if meth in NESTED and flag and PC.escaped(rec):
                 ev_all = [e[2] for s in searches for e in s["evals"]]
                 first_counts = searches[1]["counts"] if len(searches) > 1 else searches[0]["counts"]
-                if ev_all and max(ev_all) < 0 and (f["nbh"] != min(first_counts) or abs(f["H"] - f["hmin"]) > 1e-9):
-                    rep.violate("nested-search-escape-small-returns-non-smallest", f"{meth}: flag on, every evaluated excess < 0, returned {f['nbh']} bh at {f['H']} m instead of the smallest candidate ({min(first_counts)}) at {f['hmin']} m", wit)
+                if ev_all and max(ev_all) < 0:
+                    rep.count("nested_unmet_small_checked")
+                    if f["nbh"] != min(first_counts) or abs(f["H"] - f["hmin"]) > 1e-9:
+                        rep.violate("nested-search-escape-small-returns-non-smallest", f"{meth}: flag on, every evaluated excess < 0, returned {f['nbh']} bh at {f['H']} m instead of the smallest candidate ({min(first_counts)}) at {f['hmin']} m", wit)
+                if ev_all and min(ev_all) > 0:
+                    rep.count("nested_unmet_large_checked")
+                    biggest = set()
+                    for s_ in searches:
+                        biggest |= {s_["counts"][i] for i in allowed_last(s_["counts"], s_["cap"])}
+                    if f["nbh"] != max(biggest) and f["nbh"] not in {s_["counts"][i] for s_ in searches[-2:] for i in allowed_last(s_["counts"], s_["cap"])} or abs(f["H"] - f["hmax"]) > 1e-9:
+                        rep.violate("nested-search-escape-large-not-largest-at-max-height", f"{meth}: flag on, every evaluated excess > 0, returned {f['nbh']} bh at {f['H']} m; largest allowed candidates {sorted(biggest)[-3:]} at {f['hmax']} m", wit)
         rep.sample(PC.brief(rec), cap=5)
     # ---- independent re-evaluation of the policy antecedent for error runs of the 1-D searches
     if to_verify:
